@@ -471,6 +471,66 @@ def class_level_memos(project: Project, classes=None) -> List[dict]:
     return out
 
 
+def constructor_snapshots(project: Project, classes=None) -> List[dict]:
+    """Pattern E — a value derived ONCE, in the constructor, from a setting the object also keeps as a plain public
+    attribute (`self.kernel_params = kernel_params; self._kernel_args = _check(kernel_params)`) and read by the other methods
+    in place of that attribute: assigning the public attribute afterwards (it has no property that would refresh the derived
+    value) leaves every later call working with the settings of construction time.  One record per such derived attribute
+    that a public method reads: dict(fi, node, attr, source, reader)."""
+    out = []
+    for cq, c in sorted(project.classes.items()):
+        if classes is not None and cq not in classes:
+            continue
+        init = c.methods.get("__init__")
+        if init is None or not isinstance(init.node, ast.FunctionDef) or not init.params:
+            continue
+        me = init.params[0]
+        params = set(init.params[1:])
+        props = {m.name for m in c.methods.values() if m.kind in ("property", "setter")}
+        methods = [m for m in c.methods.values() if isinstance(m.node, (ast.FunctionDef, ast.AsyncFunctionDef))]
+
+        def stores(m):
+            for n in ast.walk(m.node):
+                tg = n.targets if isinstance(n, ast.Assign) else [n.target] if isinstance(n, (ast.AugAssign, ast.AnnAssign)) else []
+                for t in tg:
+                    for x in ast.walk(t):
+                        if isinstance(x, ast.Attribute) and isinstance(x.value, ast.Name) and x.value.id == m.params[0] \
+                                and isinstance(x.ctx, ast.Store):
+                            yield n, x.attr
+        plain = {}     # public plain attribute -> the parameter stored there as it came
+        derived = {}   # attribute -> (assignment, names of parameters / plain attributes its value reads)
+        for n, attr in stores(init):
+            if not isinstance(n, ast.Assign) or n.value is None:
+                continue
+            v = n.value
+            if isinstance(v, ast.Name) and v.id in params and not attr.startswith("_") and attr not in props:
+                plain[attr] = v.id
+        for n, attr in stores(init):
+            if not isinstance(n, ast.Assign) or attr in plain or attr in props:
+                continue
+            reads = {x.id for x in ast.walk(n.value) if isinstance(x, ast.Name) and x.id in params}
+            reads |= {plain_src for x in ast.walk(n.value) if isinstance(x, ast.Attribute) and isinstance(x.value, ast.Name)
+                      and x.value.id == me and x.attr in plain for plain_src in [plain[x.attr]]}
+            src = sorted(a for a, p_ in plain.items() if p_ in reads)
+            if src and not isinstance(n.value, ast.Name):
+                derived[attr] = (n, src)
+        for attr, (node, src) in sorted(derived.items()):
+            # written anywhere else (a setter, fit, a refresh helper): not a constructor-only snapshot
+            if any(a == attr for m in methods if m is not init for _, a in stores(m)):
+                continue
+            # the public attribute is refreshed through a property: fine
+            readers = [m for m in methods if m is not init and not m.name.startswith("__") and any(
+                isinstance(x, ast.Attribute) and x.attr == attr and isinstance(x.value, ast.Name) and x.value.id == m.params[0]
+                and isinstance(x.ctx, ast.Load) for x in ast.walk(m.node))]
+            if readers:
+                out.append(dict(fi=readers[0], node=node, attr=attr, source=src, cls=c,
+                                why=f"`{c.name}.{attr}` is computed once in the constructor from `{', '.join(src)}`, which the object also "
+                                    f"keeps as a plain public attribute; `{readers[0].name}` reads `{attr}` instead: assigning "
+                                    f"`{src[0]}` after construction (nothing refreshes `{attr}`) leaves every later call working with the "
+                                    f"value of construction time"))
+    return out
+
+
 def check(project: Project, rep, rule: str = "ST-CACHE"):
     """module-level caches written by the code a check analysed (and what it calls): a cache that is keyed by too little
     makes the analysed function's result depend on earlier calls — whatever that function computes.  Only the two memo
@@ -520,4 +580,7 @@ def check(project: Project, rep, rule: str = "ST-CACHE"):
                         construct=f"{r['fi'].qualname}: class-level cache {r['table']}")
         else:
             rep.discharged(rule, r["fi"], r["node"], r["why"], nontrivial=False)
+    for r in constructor_snapshots(project, reached):
+        n += 1
+        rep.refuted(rule, r["fi"], r["node"], r["why"], construct=f"{r['cls'].qualname}: constructor snapshot {r['attr']}")
     return n
